@@ -54,24 +54,27 @@ Init ==
        /\ \A t \in 1..(T - 1) : Code(prog[t]) <= Code(prog[t + 1])
        /\ m = MInit(prog)
 
-\* one named action per kind of step (coverage = vacuity guard of the check)
-Take(t, kind) == m' = Step(m, t, kind)
-DoSilentRead(t, kind)   == kind = "silent" /\ Take(t, kind)
-DoRead(t, kind)         == kind = "r" /\ Take(t, kind)
-DoWrite(t, kind)        == kind \in {"w", "u"} /\ Top(m, t).g = "" /\ Take(t, kind)
-DoInitWrite(t, kind)    == kind \in {"w", "u"} /\ Top(m, t).g # "" /\ Take(t, kind)
-DoGuardPass(t, kind)    == kind = "pass" /\ Take(t, kind)
-DoGuardAcquire(t, kind) == kind = "enter" /\ Take(t, kind)
-DoGuardRelease(t, kind) == kind = "release" /\ Take(t, kind)
-DoEndOp(t, kind)        == kind = "endop" /\ Take(t, kind)
+\* one named action per kind of step (TLC's per-action coverage is the vacuity guard of the check);
+\* a behaviour ends at the first race: the counterexample is the racing interleaving
+DoSilentRead(t) ==
+  LET kind == Kind(m, t) IN m.race = NoRaceRec /\ kind \in {"silent"} /\ m' = Step(m, t, kind)
+DoRead(t) ==
+  LET kind == Kind(m, t) IN m.race = NoRaceRec /\ kind \in {"r"} /\ m' = Step(m, t, kind)
+DoWrite(t) ==
+  LET kind == Kind(m, t) IN m.race = NoRaceRec /\ kind \in {"w", "u"} /\ Top(m, t).g = "" /\ m' = Step(m, t, kind)
+DoInitWrite(t) ==
+  LET kind == Kind(m, t) IN m.race = NoRaceRec /\ kind \in {"w", "u"} /\ Top(m, t).g # "" /\ m' = Step(m, t, kind)
+DoGuardPass(t) ==
+  LET kind == Kind(m, t) IN m.race = NoRaceRec /\ kind \in {"pass"} /\ m' = Step(m, t, kind)
+DoGuardAcquire(t) ==
+  LET kind == Kind(m, t) IN m.race = NoRaceRec /\ kind \in {"enter"} /\ m' = Step(m, t, kind)
+DoGuardRelease(t) ==
+  LET kind == Kind(m, t) IN m.race = NoRaceRec /\ kind \in {"release"} /\ m' = Step(m, t, kind)
+DoEndOp(t) ==
+  LET kind == Kind(m, t) IN m.race = NoRaceRec /\ kind \in {"endop"} /\ m' = Step(m, t, kind)
 
-Next ==
-  /\ m.race = NoRaceRec           \* the behaviour ends at the first race (the counterexample is the interleaving)
-  /\ \E t \in ThreadIds :
-       LET kind == Kind(m, t) IN
-       /\ CanStep(kind)
-       /\ \/ DoSilentRead(t, kind) \/ DoRead(t, kind) \/ DoWrite(t, kind) \/ DoInitWrite(t, kind)
-          \/ DoGuardPass(t, kind) \/ DoGuardAcquire(t, kind) \/ DoGuardRelease(t, kind) \/ DoEndOp(t, kind)
+Next == \E t \in ThreadIds : DoSilentRead(t) \/ DoRead(t) \/ DoWrite(t) \/ DoInitWrite(t) \/ DoGuardPass(t)
+                              \/ DoGuardAcquire(t) \/ DoGuardRelease(t) \/ DoEndOp(t)
 
 Spec == Init /\ [][Next]_m
 
